@@ -41,12 +41,14 @@ def compare(spec, bucket='C03'):
     o2, es2, ex2 = blocks.solve(spec, reduction=False, steady=steady)
     labels = ['on:' + o1, 'off:' + o2]
     if o1 != 'ok' or o2 != 'ok':
-        if 'ConvergenceError' in (o1, o2):
+        from sfc_models.equation_solver import ConvergenceError, NoEquilibriumError
+        if isinstance(ex1, ConvergenceError) or isinstance(ex2, ConvergenceError):
             raise Reject('no convergence (%s/%s)' % (o1, o2))
-        if steady and ('NoEquilibriumError' in (o1, o2) or 'ValueError' in (o1, o2)):
+        if steady and any(isinstance(e_, NoEquilibriumError) or type(e_) is ValueError for e_ in (ex1, ex2)):
             raise Reject('steady-state search failed (%s/%s)' % (o1, o2))
-        if o1 == o2:
-            raise Reject('both settings raise ' + o1)
+        if o1 != 'ok' and o2 != 'ok':
+            # refused with and without reduction: no values to compare (the error classes need not be the same class)
+            raise Reject('both settings raise (%s/%s)' % (o1, o2))
         raise Violation(bucket + '/outcome-differs',
                         'reduction on -> %s (%s); reduction off -> %s (%s)' % (o1, ex1, o2, ex2))
     t1, t2 = es1.TimeSeries, es2.TimeSeries
